@@ -245,6 +245,7 @@ func (l *lexer) run() {
 				l.col += w
 				l.ignore()
 				l.inVerbatim = false
+				continue // look at the new position again (another verbatim block may follow directly)
 			}
 		} else if strings.HasPrefix(l.input[l.pos:], "{% verbatim %}") { // tag
 			if l.pos > l.start {
@@ -255,6 +256,7 @@ func (l *lexer) run() {
 			l.pos += w
 			l.col += w
 			l.ignore()
+			continue // look at the new position again (the block may be empty)
 		}
 
 		if !l.inVerbatim {
